@@ -180,7 +180,7 @@ class HTTP1Connection(httputil.HTTPConnection):
         """
         if self.params.decompress:
             delegate = _GzipMessageDelegate(
-                delegate, self.params.chunk_size, self._max_body_size
+                delegate, self.params.chunk_size, self._max_body_size, self
             )
         return self._read_message(delegate)
 
@@ -735,10 +735,14 @@ class _GzipMessageDelegate(httputil.HTTPMessageDelegate):
         delegate: httputil.HTTPMessageDelegate,
         chunk_size: int,
         max_body_size: int,
+        connection: "HTTP1Connection | None" = None,
     ) -> None:
         self._delegate = delegate
         self._chunk_size = chunk_size
         self._max_body_size = max_body_size
+        # When given, the connection's current limit is used, so that a
+        # per-request set_max_body_size() also applies to the decoded body.
+        self._connection = connection
         self._decompressed_body_size = 0
         self._decompressor: GzipDecompressor | None = None
 
@@ -765,7 +769,12 @@ class _GzipMessageDelegate(httputil.HTTPMessageDelegate):
                 )
                 if decompressed:
                     self._decompressed_body_size += len(decompressed)
-                    if self._decompressed_body_size > self._max_body_size:
+                    max_body_size = (
+                        self._connection._max_body_size
+                        if self._connection is not None
+                        else self._max_body_size
+                    )
+                    if self._decompressed_body_size > max_body_size:
                         raise httputil.HTTPInputError("decompressed body too large")
                     ret = self._delegate.data_received(decompressed)
                     if ret is not None:
